@@ -472,7 +472,7 @@ LEVEL_NOTE = ("Trusted: Lean kernel, propext/Classical.choice/Quot.sound, the C+
 
 PROPS["C01"] = dict(
     module="TmcgProps.C01",
-    areas=[("vtmf", {"quick": 150, "thorough": 300}, [], "san"), ("tmcg", {"quick": 200, "thorough": 500}, [], "san")],
+    areas=[("vtmf", {"quick": 150, "thorough": 120}, [], "san"), ("tmcg", {"quick": 200, "thorough": 500}, [], "san")],
     obligations=[("Tmcg.C01.vtmf_open_correct", "full"), ("Tmcg.C01.vtmf_open_missing_share", "full"),
                  ("Tmcg.C01.vtmf_players_spec", "full"), ("Tmcg.C01.remask_preserves_plain", "full"),
                  ("Tmcg.C01.tmcg_open_correct", "full"), ("Tmcg.C01.tmcg_secret_columns", "full"),
@@ -524,7 +524,7 @@ PROPS["C03"] = dict(
 )
 PROPS["C08"] = dict(
     module="TmcgProps.C08",
-    areas=[("vtmf", {"quick": 150, "thorough": 300}, [], "san")],
+    areas=[("vtmf", {"quick": 150, "thorough": 120}, [], "san")],
     obligations=[("Tmcg.C08.key_refines_product", "full"), ("Tmcg.C08.all_orders_same_key", "full"),
                  ("Tmcg.C08.all_players_agree", "full"), ("Tmcg.C08.refused_is_noop", "full"),
                  ("Tmcg.C08.outside_group_refused", "full"), ("Tmcg.C08.remove_restores", "full"),
